@@ -720,3 +720,59 @@ pub fn stack_child(args: &Args, defs: &[Def], rep: &mut Report) {
         }
     }
 }
+
+
+/// Parent of a Layer-2 run: the corpus is split over child processes, so that a compiled lexer
+/// that crashes the process (stack overflow from endless restarts, an abort, a segfault in the
+/// unchecked build) is attributed to its definition instead of killing the whole sweep.
+pub fn layer2_sharded(args: &Args, rep: &mut Report) {
+    let exe = std::env::current_exe().expect("exe");
+    let text = std::fs::read_to_string(&args.corpus).expect("corpus.json");
+    let entries: Vec<crate::Entry> = serde_json::from_str(&text).expect("corpus json");
+    let n = 16usize;
+    let run_child = |extra: Vec<String>| {
+        let mut cmd = std::process::Command::new(&exe);
+        cmd.args(["layer2", "--prop", &args.prop, "--tier", &args.tier, "--corpus", &args.corpus, "--seed", &args.seed.to_string()]);
+        cmd.args(extra);
+        cmd.env("RAYON_NUM_THREADS", "2");
+        cmd.output().expect("spawn child")
+    };
+    let outs: Vec<(usize, std::process::Output)> = (0..n).into_par_iter().map(|i| (i, run_child(vec!["--shard".into(), format!("{i}/{n}")]))).collect();
+    for (i, out) in outs {
+        if out.status.success() {
+            if let Ok(child) = serde_json::from_slice::<Report>(&out.stdout) {
+                let b = child.bounds.clone();
+                rep.merge(child);
+                for (k, v) in b {
+                    rep.bounds.entry(k).or_insert(v);
+                }
+                continue;
+            }
+        }
+        // the shard died: find the definitions that kill it, one child per definition
+        let members: Vec<&crate::Entry> = entries.iter().filter(|e| e.idx % n == i).collect();
+        let singles: Vec<(usize, std::process::Output)> = members.par_iter().map(|e| (e.idx, run_child(vec!["--only".into(), e.idx.to_string()]))).collect();
+        let mut located = false;
+        for (idx, o) in singles {
+            let e = &entries[idx];
+            if o.status.success() {
+                if let Ok(child) = serde_json::from_slice::<Report>(&o.stdout) {
+                    rep.merge(child);
+                    continue;
+                }
+            }
+            located = true;
+            rep.count("programs", 1);
+            rep.violations.push(Violation {
+                key: format!("CRASH/{}", e.spec.short()),
+                tag: "CRASH".into(),
+                case: format!("{} {}", e.name, e.spec.short()),
+                detail: format!("replaying the enumerated inputs on the compiled lexer killed the process ({:?}): {}", o.status, String::from_utf8_lossy(&o.stderr).lines().filter(|l| !l.trim().is_empty()).take(3).collect::<Vec<_>>().join(" | ")),
+                replay: json!({"kind": "layer2-crash", "prop": args.prop, "name": e.name, "spec": e.spec, "tag": "CRASH"}),
+            });
+        }
+        if !located {
+            panic!("shard {i} failed but no single definition reproduces the failure: {}", String::from_utf8_lossy(&out.stderr).chars().take(500).collect::<String>());
+        }
+    }
+}
